@@ -422,7 +422,8 @@ Section CfgStep.
     { inv_step Hstep; cbn [guard3r guard3 actor] in *; msg_cases Hin; auto. right.
       rewrite (i_leader_log _ H2 ldr) by assumption. split.
       - rewrite firstn_length, skipn_length. lia.
-      - eapply Nat.le_trans; [apply ccs_firstn_le | apply (s_b _ _ s Hinv ldr)]. }
+      - eapply Nat.le_trans; [|exact Hguard]. apply ccs_firstn_mono.
+        rewrite firstn_length. lia. }
     assert (Hn' : prev + length ents <= length (llog (base3 s) t) /\
                   ccs (firstn (prev + length ents) (llog (base3 s) t)) lc <= 1).
     { destruct Hn as [Ho|Hn]; [|exact Hn]. split.
